@@ -1547,6 +1547,9 @@ func (w *World) checkPairs() {
 				w.R.Probe("equal-set-pair")
 			}
 			_, strict := w.M.Linear(a.Set, w.ByHash)
+			if !strict {
+				w.R.Probe("comparator-ties") // (only order-independent facts are compared then)
+			}
 			if d := w.sameObs(get(a), get(b), strict); d != "" {
 				w.R.Violate("C01:converge", "replicas %d and %d merged the same %d entries but %s", a.Idx, b.Idx, len(a.Set), d)
 			}
